@@ -474,6 +474,40 @@ func genC23(r *simrt.RNG, tier string) *simrt.Scenario {
 		return simrt.Op{K: "q", I: []int64{0, count}, Sub: g.picks(r.Weighted(50, 25, 15, 10), false, true)}
 	}
 	for i := 0; i < n; i++ {
+		if g.eth && r.Chance(1, 9) {
+			// a burst of eth-signed transactions of one sender with consecutive
+			// nonces (sometimes submitted out of order, sometimes with one missing)
+			a := int64(r.Intn(g.senders))
+			if g.ethNext[a] < g.ethNonce[a] {
+				g.ethNext[a] = g.ethNonce[a]
+			}
+			k := r.Range(2, 4)
+			order := r.Perm(k)
+			if r.Chance(1, 2) {
+				for j := range order {
+					order[j] = j
+				}
+			}
+			skip := -1
+			if r.Chance(1, 4) {
+				skip = r.Intn(k)
+			}
+			base := g.ethNext[a]
+			for _, j := range order {
+				if j == skip {
+					continue
+				}
+				s := g.clean(a)
+				s.sign, s.nonce, s.exp, s.fee = signEth, base+int64(j), expNone, feeGenerous
+				if s.exec == exParaEvm {
+					s.exec = exEvmCall
+				}
+				g.nObjs++
+				sc.Ops = append(sc.Ops, s.op())
+			}
+			g.ethNext[a] = base + int64(k)
+			continue
+		}
 		switch r.Weighted(40, 8, 20, 12, 8, 5, 2, 3, 2) {
 		case 0:
 			s := g.spec()
